@@ -184,7 +184,8 @@ static std::string runAnamEmpirical(const Sx& c) {
   o << " " << vecStr(anam.gaussianToRawVector(yq)) << " " << vecStr(anam.rawToGaussianVector(zq));
   VectorDouble y = anam.rawToGaussianVector(data);
   o << " " << vecStr(y) << " " << vecStr(anam.gaussianToRawVector(y));
-  o << " " << ivStr(anam._az) << " " << ivStr(anam._ay) << ")";
+  o << " " << ivStr(anam._az) << " " << ivStr(anam._ay);
+  o << " " << vecStr(anam.gaussianToRawVector(anam.rawToGaussianVector(zq))) << ")";
   return o.str();
 }
 
